@@ -87,6 +87,33 @@ def tok(v):
     return "O"
 
 
+def itok(v):
+    """token of a config item: scalar, list of scalars (l:) or dict of scalars (d:); None if deeper / not expressible"""
+    if isinstance(v, (list, tuple)):
+        ts = [tok(x) for x in v]
+        return None if any(t in ("L", "D", "O") for t in ts) else "l:" + ",".join(ts)
+    if isinstance(v, (set, frozenset)):
+        ts = sorted(tok(x) for x in v)
+        return None if any(t in ("L", "D", "O") for t in ts) else "l:" + ",".join(ts)
+    if isinstance(v, dict):
+        ts = [(tok(k), tok(x)) for k, x in v.items()]
+        return None if any(a in ("L", "D", "O") or b in ("L", "D", "O") for a, b in ts) else "d:" + ",".join(a + "=" + b for a, b in ts)
+    t = tok(v)
+    return None if t in ("L", "D", "O") else t
+
+
+def show_item(out, as_set=False):
+    kind, v = out
+    if kind != "ok":
+        return "reject" if kind == "reject" else "raise"
+    t = itok(v)
+    if t is None:
+        return "ok ?"
+    if as_set and t.startswith("l:"):
+        t = "l:" + ",".join(sorted(x for x in t[2:].split(",") if x))
+    return "ok " + t
+
+
 def has_type(validator, item, out):
     """the oracle: is `out` a value of the declared type (and range)?  returns None if fine, else a reason"""
     base, _, param = validator.partition("(")
@@ -192,6 +219,67 @@ def validator_matrix(ctx, cv, model, VP, r):
                     ctx.compare(case, show(res), ans)
 
 
+LIST_ITEMS = [None, "", "a", "a,b", "a, b ,c", "1,2,3", "1, 2", "a,,b", "a, ,b", ",", "none", "a,none", "x{1,2}", 5, 2.5, True,
+              [], ["a"], ["a", "b"], [1, 2, 3], ["1", 2], [None], ["a", ""], ["yes", "no"], [1.5, "2.5"], {"a": 1}, [[1]],
+              "1s, 200ms", ["1s", 250], "on,off", [True, "false"], "A,b", ["A", "B"], "16,3", [0, 11]]
+LIST_VALIDATORS = ["str", "lstr", "int", "int(0,10)", "float", "float(0,1)", "num", "bool", "ms", "secs", "enum(a,b)", "bool_int"]
+DICT_ITEMS = [None, "None", "", {}, {"a": 1}, {"a": "1", "b": 2}, {1: "x"}, {"a": None}, {"a": "abc"}, {"k": 1.5}, {"a": [1]},
+              [1, 2], "a:1", 5, {"A": "yes"}, {"x": "1s"}, {"1": 1, 1: 2}]
+DICT_VALIDATORS = ["str:str", "str:int", "str:float(0,1)", "int:str", "str:bool", "lstr:ms", "str:enum(a,b)"]
+
+
+def item_type_ok(itype, vd, item, out):
+    """oracle for list / set / dict item types: container kind, element types, nothing dropped from a provided list"""
+    if itype in ("list", "set"):
+        if itype == "list" and type(out) is not list:
+            return "not a list: %r" % (out,)
+        if itype == "set" and type(out) is not set:
+            return "not a set: %r" % (out,)
+        for e in out:
+            why = has_type(vd, "x", e) if e is not None else None
+            if why:
+                return "element %r: %s" % (e, why)
+        if itype == "list" and isinstance(item, list) and len(out) != len(item):
+            return "list of %d elements came back with %d" % (len(item), len(out))
+        return None
+    if itype == "dict":
+        if type(out) is not dict:
+            return "not a dict: %r" % (out,)
+        kv, vv = vd.split(":", 1)
+        for k, v in out.items():
+            why = (has_type(kv, "x", k) if k is not None else None) or (has_type(vv, "x", v) if v is not None else None)
+            if why:
+                return "entry %r: %r: %s" % (k, v, why)
+        if isinstance(item, dict) and len(out) > len(item):
+            return "dict grew"
+    return None
+
+
+def config_items(ctx, cv, model, VP):
+    """list / set / dict item types of validate_config_item on the real validator, the model and the oracle"""
+    jobs = [(it, vd, item) for it in ("list", "set") for vd in LIST_VALIDATORS for item in LIST_ITEMS]
+    jobs += [("dict", vd, item) for vd in DICT_VALIDATORS for item in DICT_ITEMS]
+    for itype, vd, item in jobs:
+        t = itok(item)
+        case = {"kind": "citem", "itype": itype, "validator": vd, "item": t if t is not None else repr(item)}
+        res = outcome(lambda: cv.validate_config_item([itype, vd, "None"], VP, copy.deepcopy(item)))
+        ctx.evaluated(case, True, sample=len(ctx.samples) < 6)
+        ctx.count("citem_" + itype)
+        ctx.count("citem_res_" + res[0].split(":")[0])
+        if res[0] == "ok":
+            why = item_type_ok(itype, vd, item, res[1])
+            if why:
+                ctx.fail("ill-typed:%s|%s" % (itype, vd.split("(")[0]), case, {"returned": repr(res[1])[:200], "why": why})
+        if model is not None and t is not None:
+            ans = model.ask("citem %s %s %s" % (itype, vd, t))
+            if ans == "unmodelled" or show_item(res, itype == "set") == "ok ?":
+                ctx.count("unmodelled_citem")
+            else:
+                if itype == "set" and ans.startswith("ok l:"):
+                    ans = "ok l:" + ",".join(sorted(x for x in ans[5:].split(",") if x))
+                ctx.compare(case, show_item(res, itype == "set"), ans)
+
+
 def exact_ms(num, suffix):
     return Fraction(num) * UNIT[suffix.lower()]
 
@@ -277,7 +365,11 @@ def section_cases(ctx, vm, model, r, n):
                 break
             base = parts[1].split("(")[0]
             required = parts[2] == ""
-            scalar = parts[0] == "single" and base in SCALAR
+            if parts[0] == "dict" and ":" in parts[1]:
+                kb, vb = [x.split("(")[0] for x in parts[1].split(":", 1)]
+                scalar = kb in SCALAR and vb in SCALAR
+            else:
+                scalar = parts[0] in ("single", "list", "set") and base in SCALAR
             if required and not scalar:
                 ok = False
                 break
@@ -299,7 +391,20 @@ def section_cases(ctx, vm, model, r, n):
         for k, (parts, scalar) in keys.items():
             required = parts[2] == ""
             if scalar and (required or r.random() < 0.35):
-                src[k] = gen_value_for(r, parts[1])
+                if parts[0] == "single":
+                    src[k] = gen_value_for(r, parts[1])
+                elif parts[0] in ("list", "set"):
+                    src[k] = r.choice([gen_value_for(r, parts[1]), [gen_value_for(r, parts[1]) for _ in range(r.randint(0, 3))],
+                                       r.choice(LIST_ITEMS)])
+                else:
+                    kv, vv = parts[1].split(":", 1)
+                    d = {}
+                    for _ in range(r.randint(0, 2)):
+                        kk = gen_value_for(r, kv)
+                        if isinstance(kk, (list, dict)) or kk != kk:      # unhashable / NaN keys cannot come out of YAML
+                            kk = "k"
+                        d[kk] = gen_value_for(r, vv)
+                    src[k] = r.choice([d if r.random() < 0.8 else r.choice(DICT_ITEMS), None])
         unknown = r.random() < 0.2
         if unknown:
             src[r.choice(["zz_unknown_key", "colour", "Enabled"])] = 1
@@ -335,9 +440,14 @@ def section_cases(ctx, vm, model, r, n):
             for k, (parts, scalar) in keys.items():
                 if scalar and k in out:
                     item = src.get(k, None if parts[2].lower() == "none" else parts[2])
-                    why = has_type(parts[1], item, out[k])
+                    if parts[0] == "single":
+                        why = has_type(parts[1], item, out[k])
+                        sig = "ill-typed:%s" % parts[1].split("(")[0]
+                    else:
+                        why = item_type_ok(parts[0], parts[1], item, out[k])
+                        sig = "ill-typed:%s|%s" % (parts[0], parts[1].split("(")[0])
                     if why:
-                        ctx.fail("ill-typed:%s" % parts[1].split("(")[0], dict(case, key=k), {"returned": repr(out[k]), "why": why})
+                        ctx.fail(sig, dict(case, key=k), {"returned": repr(out[k])[:200], "why": why})
                         break
         if model is not None:
             # model: the key-level outcome (unknown key / missing required / per-key scalar validation)
@@ -345,9 +455,11 @@ def section_cases(ctx, vm, model, r, n):
             for k, (parts, scalar) in keys.items():
                 if not scalar:
                     continue
-                toks.append("%s|%s|%s|%s" % (k, parts[1], (parts[2].encode().hex() or "-"), tok(src[k]) if k in src else "-"))
+                toks.append("%s|%s|%s|%s|%s" % (k, parts[0], parts[1], (parts[2].encode().hex() or "-"),
+                                                (itok(src[k]) or "O") if k in src else "-"))
             extra = sum(1 for k in src if k not in keys)
-            if sec in opaque_rejects or any(tok(v) in ("L", "D", "O") for v in src.values()):
+            if sec in opaque_rejects or any(itok(v) is None for v in src.values()) or \
+                    any(parts[0] == "set" for k, (parts, sc) in keys.items() if sc):
                 ans = "unmodelled"      # list/dict given for a scalar key: outside the scalar model (oracle still applies)
             else:
                 ans = model.ask(("section %d %d %s" % (1 if allow_others else 0, extra, " ".join(toks))).strip())
@@ -355,7 +467,7 @@ def section_cases(ctx, vm, model, r, n):
                 ctx.count("unmodelled_section")
             else:
                 impl = "reject" if res[0] != "ok" else ("ok " + " ".join(
-                    "%s=%s" % (k, tok(res[1][k])) for k, (p, s) in keys.items() if s)).strip()
+                    "%s=%s" % (k, itok(res[1][k]) or "?") for k, (p, s) in keys.items() if s)).strip()
                 ctx.compare(case, impl, ans)
 
 
@@ -367,6 +479,7 @@ def run(ctx):
         cv = vm.machine.config_validator
         VP = ValidationPath(ValidationPath(None, "verif"), "item")
         validator_matrix(ctx, cv, model, VP, ctx.rng("matrix"))
+        config_items(ctx, cv, model, VP)
         time_strings(ctx, model, ctx.rng("time"), ctx.n(600, 20000))
         section_cases(ctx, vm, model, ctx.rng("sections"), ctx.n(500, 6000))
     finally:
